@@ -1,1 +1,49 @@
-//! witnesses for c19 (filled in below)
+//! C19: `ExtendedTime` values only exist behind the range check.
+
+use opening_hours_syntax::ExtendedTime;
+
+/// W1 (labelled: this one is *evaluated* by rustc's const interpreter while type-checking the
+/// crate): `new` accepts exactly the pairs with `minute < 60` and `60 * hour + minute <= 2880`.
+const _: () = {
+    let mut h: u16 = 0;
+    while h < 256 {
+        let mut m: u16 = 0;
+        while m < 256 {
+            let expected = m < 60 && 60 * h + m <= 2880;
+            let got = ExtendedTime::new(h as u8, m as u8).is_some();
+            assert!(got == expected, "ExtendedTime::new accepts or rejects a wrong (hour, minute) pair");
+            m += 1;
+        }
+        h += 1;
+    }
+};
+
+fn witness_constants() {
+    let _ = (ExtendedTime::MIDNIGHT_00, ExtendedTime::MIDNIGHT_24, ExtendedTime::MIDNIGHT_48);
+}
+
+/// The struct literal is not available outside the crate (private fields).
+/// ```compile_fail,E0451
+/// use opening_hours_syntax::ExtendedTime;
+/// let _t = ExtendedTime { hour: 99, minute: 99 };
+/// ```
+/// Twin:
+/// ```no_run
+/// use opening_hours_syntax::ExtendedTime;
+/// let _t = ExtendedTime::new(99, 99);
+/// ```
+pub struct LiteralIsPrivate;
+
+/// Fields cannot be written from outside.
+/// ```compile_fail,E0616
+/// use opening_hours_syntax::ExtendedTime;
+/// let mut t = ExtendedTime::new(10, 0).unwrap();
+/// t.hour = 99;
+/// ```
+/// Twin:
+/// ```no_run
+/// use opening_hours_syntax::ExtendedTime;
+/// let mut t = ExtendedTime::new(10, 0).unwrap();
+/// t = t.add_hours(1).unwrap();
+/// ```
+pub struct FieldsArePrivate;
